@@ -47,7 +47,13 @@ Judge(r) ==
      ELSE IF D6 \in sdev \/ D7b \in sdev THEN Verdict(r.rid, "C06", "na", "D6 / D7b, see C01")
      ELSE Verdict(r.rid, "C06", "reject", <<r.sid, why>>)
   \* ---- C05 (dynamic half): the file's own prologue provides every configured hook
-  /\ IF ~r.absent THEN
+  /\ IF r.late THEN
+       \* the file ran before the tracer installed its hooks: its prologue must have provided the hook object,
+       \* and the code must behave the same once real hooks are put into that object
+       IF r.outout.k # "syntax" /\ ~r.late_found THEN Verdict(r.rid, "C05", "reject", "no hook object after loading the file: later hook installation has nothing to extend")
+       ELSE IF why # "" /\ ~(D6 \in sdev) /\ ~(D7b \in sdev) THEN Verdict(r.rid, "C05", "reject", <<"hooks installed after load", why>>)
+       ELSE Verdict(r.rid, "C05", IF Len(r.hooks) > 0 THEN "ok" ELSE "ok0", "hooks installed after load")
+     ELSE IF ~r.absent THEN
        \* a hook object that exists before the file is loaded must not be replaced by the file's prologue
        IF r.outout.k # "syntax" /\ ~r.ns_preserved THEN Verdict(r.rid, "C05", "reject", "the file replaced an existing hook object")
        ELSE Verdict(r.rid, "C05", IF Len(r.hooks) > 0 THEN "ok" ELSE "ok0", r.sid)
